@@ -30,7 +30,7 @@ package project
 //@   ensures name-once: result == nil ==> n_emit["name = %v\n"] == old(n_emit)["name = %v\n"] + ite(c.Name != "", 1, 0)
 //@   ensures version-once: result == nil ==> n_emit["version = %v\n"] == old(n_emit)["version = %v\n"] + ite(c.Version != "", 1, 0)
 //@   ensures ignore-once: result == nil ==> n_emit["ignore = %v\n"] == old(n_emit)["ignore = %v\n"] + ite(len(c.Ignore) != 0, 1, 0)
-//@   callsite WriteConfigFile$1@2: assert bare-key-is-valid: mustQuote || len(name) > 0
+//@   callsite WriteConfigFile$1@2: assert bare-key-is-valid: name != ""
 //@   modifies heap, n_emit
 //@   loop over slices.Sorted(): invariant n_emit["name = %v\n"] == old(n_emit)["name = %v\n"] + ite(c.Name != "", 1, 0) && n_emit["version = %v\n"] == old(n_emit)["version = %v\n"] + ite(c.Version != "", 1, 0) && n_emit["ignore = %v\n"] == old(n_emit)["ignore = %v\n"] + ite(len(c.Ignore) != 0, 1, 0)
 //@   loop over slices.Sorted(): step one-line-per-requirement: when true ensures n_emit["%v = {path = %v, version = %v}\n"] == old(n_emit["%v = {path = %v, version = %v}\n"]) + 1
@@ -50,6 +50,7 @@ package project
 // encodeValue renders one TOML value through go-toml (dependency) into a local builder: assumed to
 // leave the caller-visible heap and the emission counters alone.
 //@ func project.encodeValue
+//@   ensures quoted-is-not-empty: result != ""
 //@   trusted
 
 // ---------------------------------------------------------------- C10: a loaded configuration exists
